@@ -79,8 +79,8 @@ class C20(Check):
         "union or collection and n>=1. Distinct by digest."
     )
     assumptions = ["recursion is generated sub-critically (self reference behind a union with a non-recursive branch); array/map recursion is the known finding F-GENERATE-SUPERCRITICAL", "uuid.uuid4 (os.urandom) is not part of the library's random source"]
-    required_labels = ["mode:tape", "mode:seed", "n:0", "n>=2", "s:logical", "s:recursive", "s:ref", "tape:endpoints", "generate_one"]
-    quick = (900, 1)
+    required_labels = ["mode:tape", "mode:seed", "n:0", "n>=2", "s:logical", "s:recursive", "s:ref", "tape:endpoints", "generate_one", "interleaved-generators", "schema-object-reused-with-new-contents"]
+    quick = (2500, 1)
     thorough = (5000, 16)
 
     def __init__(self):
@@ -188,6 +188,47 @@ class C20(Check):
 
         many, one = guard("generate", produce)
         labels.add("generate_one")
+        # two generators alive at once over schemas that define the same names differently; and the same schema OBJECT
+        # with new contents: results must depend on the argument's value only
+        variant = gen.incompatible_variant(js)
+        if variant is not None and case["mode"] == "seed" and n >= 1:
+            labels.add("interleaved-generators")
+
+            def interleaved():
+                state = _random.getstate()
+                try:
+                    _random.seed(case["seed"])
+                    ga, gb = generate_many(js, n), generate_many(variant, n)
+                    out = []
+                    for _ in range(n):
+                        out.append((next(ga), next(gb)))
+                    import copy as _c
+                    obj = _c.deepcopy(js)
+                    first = generate_one(obj)
+                    if isinstance(obj, dict):
+                        obj.clear()
+                        obj.update(_c.deepcopy(variant))
+                        second = generate_one(obj)
+                    else:
+                        second = None
+                    return out, first, second
+                finally:
+                    _random.setstate(state)
+
+            pairs, first, second = guard("generate", interleaved)
+            vparsed = guard("parse-valid-schema", fastavro.parse_schema, variant)
+            for a, b in pairs:
+                if guard("validate-generated", validate, a, schema, raise_errors=False) is not True:
+                    raise Violation("interleaved-generator-value-does-not-validate", f"value {a!r:.150} from generate_many(A) interleaved with generate_many(B) does not validate against A={js!r:.300}")
+                guard("write-generated", fastavro.schemaless_writer, io.BytesIO(), schema, a)
+                if guard("validate-generated", validate, b, vparsed, raise_errors=False) is not True:
+                    raise Violation("interleaved-generator-value-does-not-validate", f"value {b!r:.150} from generate_many(B) does not validate against B={variant!r:.300}")
+                guard("write-generated", fastavro.schemaless_writer, io.BytesIO(), vparsed, b)
+            if second is not None:
+                labels.add("schema-object-reused-with-new-contents")
+                if guard("validate-generated", validate, second, vparsed, raise_errors=False) is not True:
+                    raise Violation("generate_one-ignores-new-schema-contents", f"generate_one(obj) after obj was given new contents returned {second!r:.150}, which does not validate against the new contents {variant!r:.300}")
+                guard("write-generated", fastavro.schemaless_writer, io.BytesIO(), vparsed, second)
         if len(many) != n:
             raise Violation("generate-count", f"generate_many(schema, {n}) yielded {len(many)} values; schema={js!r:.300}")
         for v in many + [one]:
